@@ -310,6 +310,17 @@ def run(tier):
     flow(worker, [(frozenset(), (), 0, frozenset())], {})
 
     # ---------------- R5 notification in addTask / destructor ; R8
+    byid_ = {(f_.unit, f_.id): f_ for f_ in funcs}
+    waiters = set()
+    for f_ in funcs:
+        if any(cv_call(f_, s_) == "wait" for s_ in f_.stmts):
+            t_ = f_
+            while t_.parent is not None and (t_.unit, t_.parent) in byid_:
+                t_ = byid_[(t_.unit, t_.parent)]
+            waiters.add(t_.qname.replace("tfel::system::", ""))
+    heterogeneous = len(waiters) >= 2
+    rep.count("functions waiting on the condition variable", len(waiters))
+
     def notify_rule(f, label):
         g = guard_decls(f)
         step = lock_transfer(f, g)
@@ -332,8 +343,13 @@ def run(tier):
                 if cv == "notify_all":
                     pending = frozenset()
                 if cv == "notify_one":
-                    if pending - {"emplace"}:
-                        rep.fail("NOTIFY-ONE@%s" % label, "%s: notify_one after %s" % (rel(f.short_loc(sid)), sorted(pending)))
+                    # one wake-up is enough for one new task only if every waiter on c is a worker; here wait() sleeps on the same
+                    # condition variable with other predicates, so the single wake-up can be consumed by a waiter that goes back to
+                    # sleep while every worker stays asleep: the task never runs
+                    if pending - {"emplace"} or (pending and heterogeneous):
+                        rep.fail("NOTIFY-ONE@%s" % label, "%s: notify_one after %s although %d functions wait on the same condition variable with "
+                                 "different predicates (%s): the wake-up can be consumed by a waiter that is not concerned, and the task never runs"
+                                 % (rel(f.short_loc(sid)), sorted(pending), len(waiters), ", ".join(sorted(waiters))))
                     pending = frozenset()
                 n = f.stmts[sid]
                 if n["k"] == "ReturnStmt" and pending:
